@@ -25,6 +25,35 @@ inspected.  Case kinds:
          written in a Files field: globs_to_re driven through the
          real FilesParagraph.matches of a subclass whose `files`
          yields the raw list; plus globs_to_re error reporting      (M.match, M.error)
+  build  BUILD HISTORIES through the public API of Copyright: start
+         from an empty Copyright() or from a parsed document, then
+         interleave add_files_paragraph(FilesParagraph.create(..)),
+         add_license_paragraph(LicenseParagraph.create(..)),
+         re-assignment of a paragraph's `files`, and query steps
+         ['q', mask]: 1 = all_paragraphs() / all_files_paragraphs()
+         against an independent model of the document (a new Files
+         paragraph goes directly after the last Files paragraph),
+         2 = find_files_paragraph + every paragraph's matches for
+         every name of the case, 4 = dump()-then-parse must resolve
+         every name to the same paragraph as the live document and
+         the model                       (M.build.order, M.build.find, M.build.reparse, M.match)
+
+Build histories are judged after every query step against the document AS IT
+IS NOW.  Shapes forced by the generator: queries on a document without any
+Files paragraph, then adds, then queries; a document whose only Files paragraph
+is the first paragraph after the header, followed by stand-alone License
+paragraphs, to which an OVERLAPPING Files paragraph is added (built through
+the API and parsed); several adds in a row with nothing observed in between;
+adds to parsed documents that end in License paragraphs (including documents
+with License paragraphs only).
+
+Mutants of this class tried on a scratch copy (repo tests still 234 passed):
+  find caches list(all_files_paragraphs()) at first use          caught (find-misses-matching-paragraph, find-first-match-wins)
+  add_files_paragraph: `if not last_i: insert(0, ..)`            caught (files-paragraph-order-differs-from-documented-insertion)
+  find memoises name -> paragraph, re-validated with matches()   caught (find-first-match-wins, find-not-last-matching-paragraph)
+  add_files_paragraph uses a last-Files index never updated      caught (files-paragraph-order-differs-from-documented-insertion)
+  add_files_paragraph appends behind the License paragraphs      NOT a C16 violation (same Files order, same resolution):
+                                                                 recorded as build:note:* / build_notes in the evidence
 """
 import io
 import itertools
@@ -38,7 +67,13 @@ RULE = ('Seeded pattern lists (1..3, thorough 1..4 patterns of 1..5, thorough 1.
         'direct globs_to_re use, blank/tab/newline) x names built as literal expansions of those patterns with 0..2 '
         'single-character edits (plus some random names); bounded-exhaustive sweeps of small pattern/name spaces; '
         'parsed and built documents with 1..5 (thorough 1..7) Files paragraphs interleaved with License paragraphs, 15% of '
-        'them over a pool of realistic path globs; histories of files re-assignments.  A (pattern list, name) evaluation is non-trivial when every pattern is legal, the list has '
+        'them over a pool of realistic path globs; histories of files re-assignments; BUILD HISTORIES through the public API '
+        '(start: empty Copyright() or a parsed document with 0..4 Files paragraphs; 2..12 steps of add_files_paragraph / '
+        'add_license_paragraph / files re-assignment, half of the added lists overlapping a list already in the document; '
+        'query steps - paragraph order, find_files_paragraph for 3..7 near-miss names, dump()-then-parse agreement - after '
+        'every step in 35% of the histories and after ~55% of the steps otherwise, always at the end; forced shapes: query '
+        'on a document without Files paragraph then add then query, sole first Files paragraph + License paragraphs + '
+        'overlapping add, runs of 2..3 adds, adds to parsed documents ending in License paragraphs).  A (pattern list, name) evaluation is non-trivial when every pattern is legal, the list has '
         '>= 2 patterns or contains a wildcard, and the name is within edit distance 2 of a name the list matches '
         '(near miss or hit, not noise).')
 ASSUMPTIONS = ['vp.models.globmatch is a faithful model of the copyright-format 1.0 glob dialect as restated in the property '
@@ -49,7 +84,22 @@ ASSUMPTIONS = ['vp.models.globmatch is a faithful model of the copyright-format 
                'for find_files_paragraph over a document containing an illegal paragraph either that error or the correct '
                'last match with no illegal paragraph after it is accepted',
                'names are str; patterns containing whitespace are only reachable through globs_to_re and are observed '
-               'through the real FilesParagraph.matches of a subclass overriding the `files` property']
+               'through the real FilesParagraph.matches of a subclass overriding the `files` property',
+               'build histories: "the last Files paragraph of the document as it is now" is read off an independent model of '
+               'the document in which add_files_paragraph puts the new paragraph directly after the last Files paragraph (its '
+               'docstring) and add_license_paragraph at the end; the order all_files_paragraphs() / all_paragraphs() / '
+               'dump()-then-parse show must be that order (a different order of the FILES paragraphs changes which paragraph a '
+               'name resolves to and is reported; the case then stops)',
+               'build histories, guards: (a) where the first Files paragraph goes in a document that so far has only stand-alone '
+               'License paragraphs is not documented - the model adopts what the library did; (b) a new Files paragraph in the '
+               'documented place among the Files paragraphs but elsewhere relative to stand-alone License paragraphs does not '
+               'change any resolution: counted as build:note:* and shown in build_notes, never a violation of this property; '
+               '(c) the paragraph returned by find_files_paragraph is identified by identity, else by the unique Copyright id '
+               '(identity is not demanded); (d) the re-parsed dump is judged only through find_files_paragraph (same '
+               'paragraph as the live document and as the model), not by comparing field texts (that is C17); with an illegal '
+               'escape anywhere in the document live and re-parsed answers are not compared (either accepted outcome may occur); '
+               '(e) inside one history a (paragraph, pattern list, name) triple is judged through matches() once, later steps '
+               'observe it through find_files_paragraph only']
 ANCHORS = ['debian.copyright:globs_to_re',
            'debian.copyright:FilesParagraph.files_pattern',
            'debian.copyright:FilesParagraph.matches',
@@ -66,7 +116,7 @@ SIZES = {
     'hist': (12000, 480000),       # x ~8 ops
     'doc': (9000, 360000),         # x ~5 names x ~3 paragraphs
     'raw': (10000, 400000),        # x ~5 names
-    'build': (6000, 240000),       # x ~5 query steps x ~6 names x ~3 paragraphs, + one dump-then-parse per query step
+    'build': (5000, 150000),       # x ~5 query steps x ~6 names x ~3 paragraphs, + one dump-then-parse per query step
 }
 
 LIT = ['a', 'a', 'a', 'b', 'b', 'c', 'A', '/', '/', '.']
@@ -705,7 +755,7 @@ def build_doc(case):
     return cp.Copyright(text.splitlines(True))
 
 
-def doc_queries(ctx, case, c, fps, lists, names, earlier_by_idx, phase, small_of=None, mon='M.find', cnt='find'):
+def doc_queries(ctx, case, c, fps, lists, names, earlier_by_idx, phase, small_of=None, mon='M.find', cnt='find', memo=None):
     """find_files_paragraph(name) and every paragraph's matches(name) for each
     name, judged against `lists` (the pattern lists of the document's Files
     paragraphs in document order; `fps` are the live objects in that order).
@@ -733,7 +783,16 @@ def doc_queries(ctx, case, c, fps, lists, names, earlier_by_idx, phase, small_of
         # --- every paragraph's own matches()
         lib, keys = [], []
         for k, (p, gl) in enumerate(zip(fps, lists)):
-            got, key = check_matches(ctx, p, gl, name, small, earlier_by_idx.get(k, ()))
+            if memo is not None:
+                # build histories: a (paragraph object, pattern list, name) triple is judged by the oracle once per
+                # history; at later steps the same answer is still observed through find_files_paragraph itself
+                mk_ = (id(p), tuple(gl.patterns), name)
+                if mk_ in memo:
+                    got, key = memo[mk_]
+                else:
+                    got, key = memo[mk_] = check_matches(ctx, p, gl, name, small, earlier_by_idx.get(k, ()))
+            else:
+                got, key = check_matches(ctx, p, gl, name, small, earlier_by_idx.get(k, ()))
             lib.append(got)
             if key:
                 keys.append(key)
@@ -834,6 +893,260 @@ def run_doc(ctx, case):
             doc_queries(ctx, case, c, fps, want_lists, names, {k: [old]}, '-after-reassign')
 
 
+def _para_ids(paragraphs):
+    """Identify paragraphs by the unique id the generator put in them (Files:
+    Copyright field; stand-alone License: synopsis).  The header is skipped."""
+    from debian import copyright as cp
+    out = []
+    for p in paragraphs:
+        if isinstance(p, cp.Header):
+            continue
+        try:
+            if isinstance(p, cp.FilesParagraph):
+                out.append(p.copyright)
+            elif isinstance(p, cp.LicenseParagraph):
+                out.append(p.license.synopsis)
+            else:
+                out.append('?%s' % type(p).__name__)
+        except Exception as e:
+            out.append('?%s' % type(e).__name__)
+    return out
+
+
+class _BuildState(object):
+    """Independent model of a Copyright document under construction: `order`
+    is the id of every non-header paragraph in document order; `files` maps the
+    id of a Files paragraph to [live object, GlobList, earlier GlobLists]."""
+
+    def __init__(self):
+        self.order = []
+        self.files = {}
+
+    def files_order(self):
+        return [x for x in self.order if x in self.files]
+
+    def add_files(self, tag):
+        """Documented placement: directly after the last Files paragraph.  Returns
+        False when the document has no Files paragraph but other paragraphs (the
+        docstring is silent there; the caller adopts what the library did)."""
+        last = -1
+        for i, x in enumerate(self.order):
+            if x in self.files:
+                last = i
+        if last < 0 and self.order:
+            return False
+        self.order.insert(last + 1, tag)
+        return True
+
+
+def run_build(ctx, case):
+    from debian import copyright as cp
+    start, ops, names = case['start'], case['ops'], case['names']
+    st = _BuildState()
+    parsed = start['mode'] != 'empty'
+    ctx.count('build:histories')
+    ctx.count('build:start-%s' % start['mode'])
+    if not parsed:
+        c = cp.Copyright()
+    else:
+        text = doc_text(start['paras'])
+        c = cp.Copyright(io.StringIO(text)) if start['mode'] == 'parse-file' else cp.Copyright(text.splitlines(True))
+        live = [p for p in c.all_paragraphs() if not isinstance(p, cp.Header)]
+        want = [('c%d' % i) if 'F' in p else ('L%d' % i) for i, p in enumerate(start['paras'])]
+        ok = _para_ids(live) == want
+        if ok:
+            for i, (p, obj) in enumerate(zip(start['paras'], live)):
+                if 'F' in p:
+                    if not isinstance(obj, cp.FilesParagraph) or tuple(obj.files) != tuple(p['F']):
+                        ok = False
+                        break
+                    st.files[want[i]] = [obj, G.GlobList(p['F']), []]
+        if not ok:
+            # harness sanity (not the property): the document must contain what was written
+            ctx.inconclusive.append('build start document did not parse to what was written: wrote %r, got %r'
+                                    % (want, _para_ids(live)))
+            return
+        st.order = list(want)
+    flags = {'empty-queried': False, 'row': 0}
+    memo = {}
+    sole_first, parsed_tail, row_tags = set(), set(), []
+
+    def small_at(i):
+        return {'kind': 'build', 'start': start, 'ops': ops[:i + 1] + ([] if ops[i][0] == 'q' else [['q', 7]]), 'names': names}
+
+    def viols():
+        return sum(ctx.viol_count.values())
+
+    def check_order(small):
+        """all_paragraphs() / all_files_paragraphs() against the model.  False => a violation was recorded."""
+        ctx.mon('M.build.order')
+        try:
+            full = _para_ids(c.all_paragraphs())
+            fonly = _para_ids(c.all_files_paragraphs())
+        except Exception as e:
+            ctx.violation('paragraph-listing-raises', 'all_paragraphs()/all_files_paragraphs() raised %s: %s' % (type(e).__name__, e), small)
+            return False
+        if sorted(full) != sorted(st.order):
+            ctx.violation('paragraph-lost-or-duplicated-in-built-document', 'all_paragraphs() shows %r, the history put %r into the '
+                          'document' % (full, st.order), small)
+            return False
+        if [x for x in full if x in st.files] != fonly:
+            ctx.violation('all_files_paragraphs-disagrees-with-all_paragraphs', 'all_files_paragraphs() shows %r, all_paragraphs() %r'
+                          % (fonly, full), small)
+            return False
+        if fonly != st.files_order():
+            ctx.violation('files-paragraph-order-differs-from-documented-insertion', 'Files paragraphs are in order %r; '
+                          'add_files_paragraph documents "directly after the last FilesParagraph", which gives %r '
+                          '(all paragraphs: %r)' % (fonly, st.files_order(), full), small)
+            return False
+        if full != st.order:
+            # same Files order, different position relative to stand-alone License paragraphs: no effect on which
+            # paragraph a name resolves to - recorded, not judged under this property
+            ctx.count('build:note:position-relative-to-license-paragraphs-differs-from-docstring')
+            ctx.extra.setdefault('build_notes', [])
+            if len(ctx.extra['build_notes']) < 3:
+                ctx.extra['build_notes'].append('documented order %r, live order %r' % (st.order, full))
+            st.order = list(full)
+        return True
+
+    def reparse(small, live_results, lists, any_illegal):
+        ctx.mon('M.build.reparse')
+        try:
+            text = c.dump()
+            c2 = cp.Copyright(text.splitlines(True))
+            full2 = _para_ids(c2.all_paragraphs())
+            fps2 = list(c2.all_files_paragraphs())
+        except Exception as e:
+            ctx.violation('dump-of-built-document-does-not-reparse', 'dump() then Copyright(...) raised %s: %s'
+                          % (type(e).__name__, e), small)
+            return
+        forder = st.files_order()
+        if [x for x in full2 if x in st.files] != forder or len(fps2) != len(forder):
+            if not check_order(small):        # the live document itself is not in the documented order: reported under that key
+                return
+            ctx.violation('dumped-document-has-different-files-paragraphs', 'dump() then parse shows paragraphs %r; the live document '
+                          'has Files paragraphs %r (all paragraphs: %r)' % (full2, forder, st.order), small)
+            return
+        if full2 != st.order:
+            ctx.count('build:note:dump-position-relative-to-license-paragraphs-differs')
+        if any(tuple(p2.files) != tuple(gl.patterns) for p2, gl in zip(fps2, lists)):
+            ctx.count('build:note:reparsed-pattern-list-differs')     # judged only through the queries below
+        for name, live_res in zip(names, live_results):
+            try:
+                r2 = ('value', _index_of(fps2, c2.find_files_paragraph(name)))
+            except cp.MachineReadableFormatError as e:
+                r2 = ('format-error', str(e))
+            except Exception as e:
+                r2 = ('other-error', '%s: %s' % (type(e).__name__, e))
+            ctx.count('op:find-build-reparsed')
+            if any_illegal:
+                continue          # either outcome is acceptable there (see ASSUMPTIONS); nothing to compare
+            hits = [k for k, gl in enumerate(lists) if gl.matches(name)]
+            want_idx = hits[-1] if hits else None
+            if r2[0] != live_res[0] or (r2[0] == 'value' and r2[1] != live_res[1]) or (r2[0] == 'value' and r2[1] != want_idx):
+                ctx.violation('reparsed-document-resolves-differently', 'find_files_paragraph(%r): live document -> %r, '
+                              'dump()-then-parse of it -> %r, last matching Files paragraph is #%r; pattern lists in document '
+                              'order %r' % (name, _show(live_res), _show(r2), want_idx, [gl.patterns for gl in lists]), small)
+
+    def query(i, mask):
+        small = small_at(i)
+        before = viols()
+        if mask & 1:
+            if not check_order(small):
+                return False
+        if mask & 6:
+            forder = st.files_order()
+            fps = [st.files[t][0] for t in forder]
+            lists = [st.files[t][1] for t in forder]
+            earlier = dict((k, st.files[t][2][:4]) for k, t in enumerate(forder) if st.files[t][2])
+            any_illegal = any(not gl.legal for gl in lists)
+            res = doc_queries(ctx, case, c, fps, lists, names, earlier, '-build', small_of=lambda name: small,
+                              mon='M.build.find', cnt='build-find', memo=memo)
+            ctx.evaluations += len(names)
+            if not any_illegal:
+                for name in names:
+                    hits = [k for k, gl in enumerate(lists) if gl.matches(name)]
+                    if not lists:
+                        ctx.count('build:find-on-document-without-files-paragraph')
+                    if not hits:
+                        continue
+                    wtag = forder[hits[-1]]
+                    if flags['empty-queried']:
+                        ctx.count('build:find-hit-after-query-on-document-without-files-paragraph')
+                    if wtag in sole_first and len(hits) >= 2:
+                        ctx.count('build:find-resolves-to-overlapping-paragraph-added-behind-sole-first-files-and-licenses')
+                    if wtag in parsed_tail:
+                        ctx.count('build:find-resolves-to-paragraph-added-to-parsed-document-ending-in-license')
+                    if flags['row'] >= 2 and wtag in row_tags[-flags['row']:]:
+                        ctx.count('build:find-resolves-into-run-of-2+-adds')
+                if not lists:
+                    flags['empty-queried'] = True
+            flags['row'] = 0
+            if viols() != before:
+                if not mask & 1:
+                    check_order(small)        # classification aid: was it the order or the lookup?
+                return False
+            if mask & 4:
+                reparse(small, res, lists, any_illegal)
+                if viols() != before:
+                    return False
+        return True
+
+    for i, op in enumerate(ops):
+        kind = op[0]
+        if kind == 'q':
+            ctx.count('op:build-query-%d' % op[1])
+            if not query(i, op[1]):
+                return
+        elif kind == 'addF':
+            pats, tag = op[1], op[2]
+            para = make_para(pats, tag)
+            forder = st.files_order()
+            if len(forder) == 1 and st.order[0] == forder[0] and len(st.order) >= 2:
+                sole_first.add(tag)
+                ctx.count('build:add-behind-sole-first-files-and-licenses')
+            if parsed and st.order and st.order[-1] not in st.files:
+                parsed_tail.add(tag)
+                ctx.count('build:add-to-parsed-document-ending-in-license')
+            c.add_files_paragraph(para)
+            ctx.count('op:build-add-files')
+            st.files[tag] = [para, G.GlobList(pats), []]
+            flags['row'] += 1
+            row_tags.append(tag)
+            if not st.add_files(tag):
+                # no Files paragraph yet but stand-alone License paragraphs: the docstring does not say where the first
+                # Files paragraph goes; adopt the library's choice (nothing else may have moved)
+                ctx.count('build:first-files-paragraph-added-to-license-only-document')
+                full = _para_ids(c.all_paragraphs())
+                if [x for x in full if x != tag] != st.order or full.count(tag) != 1:
+                    ctx.violation('paragraph-lost-or-duplicated-in-built-document', 'after add_files_paragraph(%r) all_paragraphs() '
+                                  'shows %r; before: %r' % (tag, full, st.order), small_at(i))
+                    return
+                st.order = full
+        elif kind == 'addL':
+            c.add_license_paragraph(cp.LicenseParagraph.create(cp.License(op[1], 'text')))
+            ctx.count('op:build-add-license')
+            st.order.append(op[1])
+        elif kind == 'set':
+            k, newp = op[1], op[2]
+            forder = st.files_order()
+            if k >= len(forder):
+                continue
+            ent = st.files[forder[k]]
+            ent[0].files = list(newp)
+            ent[2].insert(0, ent[1])
+            ent[1] = G.GlobList(newp)
+            ctx.count('op:build-files-assign')
+        else:
+            raise ValueError('unknown build op %r' % (op,))
+
+
+def _show(res):
+    if res[0] != 'value':
+        return res[0]
+    return 'foreign object' if res[1] is _MISS else ('None' if res[1] is None else '#%d' % res[1])
+
+
 def run_raw(ctx, case):
     from debian import copyright as cp
     pats = case['pats']
@@ -886,6 +1199,8 @@ def run_case(ctx, case):
         run_doc(ctx, case)
     elif kind == 'raw':
         run_raw(ctx, case)
+    elif kind == 'build':
+        run_build(ctx, case)
     else:
         raise ValueError('unknown case kind %r' % kind)
 
@@ -897,20 +1212,40 @@ def finish(ctx):
 
 # ~50% of what a run on the current tree measures (seed 0)
 FLOORS = {'quick': {'nontrivial': 240000,
-                    'monitors': {'M.match': 350000, 'M.find': 36000, 'M.error': 13000, 'M.stale': 13000},
+                    'monitors': {'M.match': 350000, 'M.find': 36000, 'M.error': 13000, 'M.stale': 13000,
+                                 'M.build.find': 64000, 'M.build.order': 10000, 'M.build.reparse': 9900},
                     'counters': {'nontrivial:near-miss': 160000, 'nontrivial:hit': 130000,
                                  'find:several-paragraphs-match': 7000, 'op:find-after-reassign': 11000,
                                  'op:match-after-2+-unobserved-assignments': 2000,
                                  'raw:list-with-whitespace': 2400, 'raw:matches-observed': 23000,
-                                 'enum:evaluations': 15000}},
+                                 'enum:evaluations': 15000,
+                                 'build:histories': 2500, 'op:build-add-files': 9500, 'op:build-add-license': 1900,
+                                 'op:build-files-assign': 1700, 'op:find-build-reparsed': 60000,
+                                 'build-find:several-paragraphs-match': 19500,
+                                 'build:find-on-document-without-files-paragraph': 8000,
+                                 'build:find-hit-after-query-on-document-without-files-paragraph': 13500,
+                                 'build:find-resolves-to-overlapping-paragraph-added-behind-sole-first-files-and-licenses': 3000,
+                                 'build:find-resolves-to-paragraph-added-to-parsed-document-ending-in-license': 12500,
+                                 'build:find-resolves-into-run-of-2+-adds': 7900,
+                                 'build:first-files-paragraph-added-to-license-only-document': 440}},
           # distinct_nontrivial is bounded by the per-shard recording cap (14 x 400000) in this tier
           'thorough': {'nontrivial': 2700000,
-                       'monitors': {'M.match': 14800000, 'M.find': 1400000, 'M.error': 790000, 'M.stale': 530000},
+                       'monitors': {'M.match': 14800000, 'M.find': 1400000, 'M.error': 790000, 'M.stale': 530000,
+                                    'M.build.find': 2380000, 'M.build.order': 365000, 'M.build.reparse': 350000},
                        'counters': {'nontrivial:near-miss': 6500000, 'nontrivial:hit': 5300000,
                                     'find:several-paragraphs-match': 388000, 'op:find-after-reassign': 440000,
                                     'op:match-after-2+-unobserved-assignments': 84000,
                                     'raw:list-with-whitespace': 129000, 'raw:matches-observed': 700000,
-                                    'enum:evaluations': 200000}}}
+                                    'enum:evaluations': 200000,
+                                    'build:histories': 75000, 'op:build-add-files': 360000, 'op:build-add-license': 73000,
+                                    'op:build-files-assign': 73000, 'op:find-build-reparsed': 2230000,
+                                    'build-find:several-paragraphs-match': 830000,
+                                    'build:find-on-document-without-files-paragraph': 250000,
+                                    'build:find-hit-after-query-on-document-without-files-paragraph': 555000,
+                                    'build:find-resolves-to-overlapping-paragraph-added-behind-sole-first-files-and-licenses': 103000,
+                                    'build:find-resolves-to-paragraph-added-to-parsed-document-ending-in-license': 530000,
+                                    'build:find-resolves-into-run-of-2+-adds': 318000,
+                                    'build:first-files-paragraph-added-to-license-only-document': 13600}}}
 
 LEVEL_TEXT = ('Runtime monitoring: seeded hostile pattern lists and near-miss names (literal expansions of the patterns with '
               '0..2 single-character edits), bounded-exhaustive sweeps of small pattern/name spaces, parsed and built '
